@@ -73,7 +73,10 @@ pub enum Auth {
 #[derive(Clone, Debug, Serialize, Deserialize)]
 pub enum Cell {
     /// tonic client against a raw rustls + h2 server
-    Client { roots: Roots, domain: Domain, alpn: Alpn, assume_http2: bool, server_cert_other: bool },
+    Client { roots: Roots, domain: Domain, alpn: Alpn, assume_http2: bool, server_cert_other: bool, #[serde(default)] origin: u8 },
+    /// one client TLS state used first against a listener without client authentication, then against a
+    /// listener of the same process that requires client certificates
+    TwoListeners { ident: Ident },
     /// https endpoint, no TLS configuration at all (eager or lazy channel)
     HttpsWithoutTls { lazy: bool },
     /// tonic client against tonic server with client authentication
@@ -96,14 +99,23 @@ fn all_cells() -> Vec<Cell> {
         for domain in [Domain::CfgGood, Domain::CfgBad, Domain::UriGood, Domain::UriBad] {
             for alpn in [Alpn::H2, Alpn::NoAlpn, Alpn::Http11] {
                 for assume_http2 in [false, true] {
-                    v.push(Cell::Client { roots, domain, alpn, assume_http2, server_cert_other: false });
+                    v.push(Cell::Client { roots, domain, alpn, assume_http2, server_cert_other: false, origin: 0 });
                 }
             }
         }
     }
     // the server presents a certificate for another name
     for domain in [Domain::CfgGood, Domain::UriGood] {
-        v.push(Cell::Client { roots: Roots::RightCa, domain, alpn: Alpn::H2, assume_http2: false, server_cert_other: true });
+        v.push(Cell::Client { roots: Roots::RightCa, domain, alpn: Alpn::H2, assume_http2: false, server_cert_other: true, origin: 0 });
+    }
+    // Endpoint::origin is about the :authority of requests, not about whom the certificate must name
+    for domain in [Domain::CfgGood, Domain::CfgBad, Domain::UriGood, Domain::UriBad] {
+        for origin in [1u8, 2] {
+            v.push(Cell::Client { roots: Roots::RightCa, domain, alpn: Alpn::H2, assume_http2: false, server_cert_other: false, origin });
+        }
+    }
+    for ident in [Ident::NoCert, Ident::Valid, Ident::ByOtherCa] {
+        v.push(Cell::TwoListeners { ident });
     }
     for ident in [Ident::NoCert, Ident::Valid, Ident::ByOtherCa] {
         for auth in [Auth::NoClientAuth, Auth::Required, Auth::Optional, Auth::RequiredEmptyCa] {
@@ -180,7 +192,7 @@ fn single_connector(io: PipeEnd) -> impl tower::Service<http::Uri, Response = To
     })
 }
 
-fn run_client_cell(c: &Case, roots: Roots, domain: Domain, alpn: Alpn, assume_http2: bool, server_cert_other: bool, no_tls_cfg: bool, lazy: bool) -> Result<Seen, Failure> {
+fn run_client_cell(c: &Case, roots: Roots, domain: Domain, alpn: Alpn, assume_http2: bool, server_cert_other: bool, no_tls_cfg: bool, lazy: bool, origin: u8) -> Result<Seen, Failure> {
     let (cend, send_, handle) = pipe(c.c2s.clone(), c.s2c.clone());
     let hits = Arc::new(AtomicUsize::new(0));
     let hits2 = hits.clone();
@@ -200,6 +212,11 @@ fn run_client_cell(c: &Case, roots: Roots, domain: Domain, alpn: Alpn, assume_ht
             _ => "https://good.test",
         };
         let mut ep = tonic::transport::Endpoint::from_static(uri);
+        match origin {
+            1 => ep = ep.origin("https://good.test".parse().unwrap()),
+            2 => ep = ep.origin("https://bad.test".parse().unwrap()),
+            _ => {}
+        }
         if !no_tls_cfg {
             let mut t = ClientTlsConfig::new().assume_http2(assume_http2);
             match roots {
@@ -361,6 +378,58 @@ fn run_mutual(c: &Case, ident: Ident, auth: Auth, raw_client: Option<Alpn>) -> R
     Ok(Seen { call_ok: ok, error, hits: log.len(), c2s_head: head, peer_certs: log.first().map(|l| l.peer_certs) })
 }
 
+/// One Endpoint (one client TLS state) is used against a listener that does not ask for client certificates
+/// and then against a second listener of the same process that requires them.
+fn run_two_listeners(c: &Case, ident: Ident) -> Result<(bool, usize, bool, usize, String), Failure> {
+    let mk = || Shared::new(vec![HandlerScript { msgs: vec![RespMsg { data: Blob::of(b"pong"), pend: 0, delay_ms: 0 }], ..Default::default() }]);
+    let (sh_a, sh_b) = (mk(), mk());
+    let (net_a, inc_a) = Net::new(vec![(c.c2s.clone(), c.s2c.clone())]);
+    let (net_b, inc_b) = Net::new(vec![(c.c2s.clone(), c.s2c.clone())]);
+    let (sa, sb) = (sh_a.clone(), sh_b.clone());
+    let res = rt::run_virtual(c.rt_seed, Duration::from_secs(3600), async move {
+        let id = || Identity::from_pem(SERVER_GOOD.0, SERVER_GOOD.1);
+        let lenient = tonic::transport::Server::builder().tls_config(ServerTlsConfig::new().identity(id())).map_err(|e| format!("{e:?}"))?.add_service(vt::raw_server::RawServer::new(sa));
+        let strict = tonic::transport::Server::builder()
+            .tls_config(ServerTlsConfig::new().identity(id()).client_ca_root(Certificate::from_pem(CA_CLIENT)))
+            .map_err(|e| format!("{e:?}"))?
+            .add_service(vt::raw_server::RawServer::new(sb));
+        let ta = tokio::spawn(async move { lenient.serve_with_incoming(inc_a).await });
+        let tb = tokio::spawn(async move { strict.serve_with_incoming(inc_b).await });
+        let mut t = ClientTlsConfig::new().ca_certificate(Certificate::from_pem(CA_A)).domain_name("good.test");
+        match ident {
+            Ident::NoCert => {}
+            Ident::Valid => t = t.identity(Identity::from_pem(CLIENT_VALID.0, CLIENT_VALID.1)),
+            Ident::ByOtherCa => t = t.identity(Identity::from_pem(CLIENT_BY_B.0, CLIENT_BY_B.1)),
+        }
+        let ep = tonic::transport::Endpoint::from_static("https://good.test").tls_config(t).map_err(|e| format!("{e:?}"))?;
+        let mut errs = String::new();
+        let mut call = |ch: Result<tonic::transport::Channel, tonic::transport::Error>| async move {
+            match ch {
+                Err(e) => (false, format!("connect: {e:?}")),
+                Ok(ch) => match vt::raw_client::RawClient::new(ch).unary(b"ping".to_vec()).await {
+                    Ok(_) => (true, String::new()),
+                    Err(s) => (false, format!("call: {s:?}")),
+                },
+            }
+        };
+        // two round trips with the lenient listener (the second one lets the client use a session ticket)
+        let (ok_a1, e1) = call(ep.connect_with_connector(net_a.connector()).await).await;
+        let (ok_a2, e2) = call(ep.connect_with_connector(net_a.connector()).await).await;
+        rt::quiesce().await;
+        let (ok_b, e3) = call(ep.connect_with_connector(net_b.connector()).await).await;
+        errs.push_str(&format!("{e1} | {e2} | {e3}"));
+        rt::quiesce().await;
+        ta.abort();
+        tb.abort();
+        Ok::<_, String>((ok_a1 && ok_a2, ok_b, errs))
+    });
+    match res {
+        Err(_) => bail!("C15/never-resolves", "TLS scenario did not finish"),
+        Ok(Err(e)) => bail!("C15/two-listeners-setup", "{e}"),
+        Ok(Ok((ok_a, ok_b, errs))) => Ok((ok_a, sh_a.log.lock().unwrap().len(), ok_b, sh_b.log.lock().unwrap().len(), errs)),
+    }
+}
+
 fn no_plaintext(seen: &Seen) -> Result<(), Failure> {
     let h = &seen.c2s_head;
     ensure!(!h.windows(14).any(|w| w == b"PRI * HTTP/2.0"), "C15/plaintext-fallback", "the client wrote a plaintext HTTP/2 preface on an https endpoint");
@@ -376,12 +445,13 @@ pub fn run(c: &Case, o: &mut Outcome) -> Result<(), Failure> {
         Cell::HttpsWithoutTls { lazy } => {
             o.label("https_without_tls_config");
             o.label_if(*lazy, "lazy_channel");
-            let seen = run_client_cell(c, Roots::RightCa, Domain::UriGood, Alpn::H2, false, false, true, *lazy)?;
+            let seen = run_client_cell(c, Roots::RightCa, Domain::UriGood, Alpn::H2, false, false, true, *lazy, 0)?;
             ensure!(!seen.call_ok, "C15/https-without-tls-succeeds", "https endpoint without a TLS configuration carried a call");
             ensure!(seen.hits == 0, "C15/request-reached-peer-without-authentication", "a request reached the peer");
             ensure!(seen.c2s_head.is_empty(), "C15/plaintext-fallback", "bytes were written on an https endpoint without TLS configuration: {:02x?}", &seen.c2s_head[..seen.c2s_head.len().min(16)]);
         }
-        Cell::Client { roots, domain, alpn, assume_http2, server_cert_other } => {
+        Cell::Client { roots, domain, alpn, assume_http2, server_cert_other, origin } => {
+            o.label_if(*origin != 0, "endpoint_origin_set");
             o.label("tonic_client_vs_raw_server");
             let chain = *roots == Roots::RightCa;
             let name = matches!(domain, Domain::CfgGood | Domain::UriGood) && !server_cert_other;
@@ -395,7 +465,7 @@ pub fn run(c: &Case, o: &mut Outcome) -> Result<(), Failure> {
             o.label_if(*assume_http2, "assume_http2");
             o.label_if(expect, "expected_success");
             o.nontrivial = !(chain && name && *alpn == Alpn::H2 && !assume_http2);
-            let seen = run_client_cell(c, *roots, *domain, *alpn, *assume_http2, *server_cert_other, false, c.rt_seed % 3 == 0)?;
+            let seen = run_client_cell(c, *roots, *domain, *alpn, *assume_http2, *server_cert_other, false, c.rt_seed % 3 == 0, *origin)?;
             no_plaintext(&seen)?;
             if expect {
                 ensure!(seen.call_ok && seen.hits == 1, "C15/valid-configuration-refused", "chain, name and protocol are fine but the call failed: {} (requests at peer: {})", seen.error, seen.hits);
@@ -409,6 +479,17 @@ pub fn run(c: &Case, o: &mut Outcome) -> Result<(), Failure> {
                 };
                 ensure!(!seen.call_ok, format!("C15/call-succeeded-without-authentication/{why}"), "call succeeded although {why} (roots {roots:?}, domain {domain:?}, alpn {alpn:?}, assume_http2 {assume_http2})");
                 ensure!(seen.hits == 0, format!("C15/request-reached-peer-without-authentication/{why}"), "a request was transmitted although {why}");
+            }
+        }
+        Cell::TwoListeners { ident } => {
+            o.label("two_listeners_one_client_state");
+            let (ok_a, hits_a, ok_b, hits_b, errs) = run_two_listeners(c, *ident)?;
+            ensure!(ok_a && hits_a == 2, "C15/authorised-client-refused", "listener without client auth refused a call: {errs}");
+            if *ident == Ident::Valid {
+                ensure!(ok_b && hits_b == 1, "C15/authorised-client-refused", "listener requiring client certificates refused a valid one: {errs}");
+            } else {
+                ensure!(!ok_b, "C15/unauthenticated-client-served/after-session-with-other-listener", "identity {ident:?}: a client that had talked to a listener without client auth was then served by the listener that requires certificates");
+                ensure!(hits_b == 0, "C15/unauthenticated-client-reached-handler/after-session-with-other-listener", "identity {ident:?}: a handler of the strict listener ran");
             }
         }
         Cell::Mutual { ident, auth } | Cell::RawClient { ident, auth, .. } => {
@@ -499,7 +580,7 @@ impl Prop for C15 {
         v
     }
     fn fixed_is_exhaustive() -> Option<&'static str> {
-        Some("the full configuration matrix (112 cells) x 2 fixed pipe schedules is enumerated completely")
+        Some("the full configuration matrix (123 cells) x 2 fixed pipe schedules is enumerated completely")
     }
     fn max_shrink_iters() -> u32 {
         200
